@@ -213,9 +213,20 @@ CHECKS["C13"] = {
             "on/off), _restore_cached_packets of an earlier snapshot (plain, twice, damaged cache, cancelled mid-way, with a concurrent "
             "get_state). Oracle: no view raises; after every get_state/restore the engine is not paused, a probe packet is handled, a probe "
             "command is written, the sending/discovery flags are unchanged; a fresh 30C9 array from the known controller is reflected in "
-            "its zones at the end. distinct = distinct (base log, splice, config, operation sequence); non-trivial = mutated history",
+            "its zones at the end. Variants: 15 % read-only gateways (disable_sending), 15 % the same history replayed as a packet log through "
+            "Gateway(input_file=...) with the views/snapshots taken from the message handler while the replay is under way (it must "
+            "then run to its end); in 80 % of the non-eavesdropping runs a twin gateway hears the same history minus the packets of the "
+            "unrelated system (and a neighbour's controller/UFC broadcasts its own 000A/22C9/2309/30C9 array right before ours): every "
+            "system the twin knows must have the same schema/params/status in both. A get_state() refused because a restore is under way "
+            "must not change the engine, and that restore must finish. distinct = distinct (base log, splice, config, operation "
+            "sequence); non-trivial = mutated history",
     "real": REAL_STATE, "stub": STUB_RF,
-    "assumptions": ["exceptions that only reach the loop's handler from deferred per-device handlers are counted, not judged (the clean "
+    "assumptions": ["'unrelated system' = spliced packets whose device ids (addresses and ids named inside 000C/1FC9 payloads) are disjoint "
+                    "from the known history's, closed under 'names a known device'; the twin gets the same reads at the same instants",
+                    "non-interference is judged with eavesdropping off (with it on, the library's heuristics look at every device in range by "
+                    "design; an experimental SIMRF_TWIN_EAVES=1 run shows the known limitation that a neighbour's packet between the two "
+                    "fragments of our 000A array splits it)",
+                    "exceptions that only reach the loop's handler from deferred per-device handlers are counted, not judged (the clean "
                     "corpus already produces some)", "histories are sampled, not enumerated",
                     "a forward step of the wall clock (host suspend) is used for long ageing; backward steps are not injected"],
 }
@@ -245,7 +256,8 @@ CHECKS["C16"] = {
     "rule": "one run = a live history as in C13 (windows of real logs, spliced/mutated; bursts of several frames in one read; eavesdropping "
             "on in 25 %) with 1-4 crash points at seeded prefixes: S1 = get_state(include_expired on/off) with the loop drained; crash = a "
             "fresh Gateway on the same dongle id built from S1's schema and started with cached_packets = S1's packets, optionally after a "
-            "downtime of 30 s .. 25 h (wall clock stepped); S2 = its snapshot; then S1 is restored again into the fresh gateway (S3) and "
+            "downtime of 30 s .. 25 h (wall clock stepped) and on a slow host (every busy loop iteration costs virtual time, so that the "
+            "restore takes 0.3-4 s); S2 = its snapshot; then S1 is restored again into the fresh gateway (S3) and "
             "into the original one (S4). Oracle: S2/S3/S4 add nothing, change nothing and lose nothing except packets that have expired by "
             "then; with eavesdropping off and no downtime the schemas are identical; every entry of every snapshot decodes, none is an RQ, "
             "none a W other than 0404, none expired unless asked for. distinct = (base log, splice, config, crash points); non-trivial = "
@@ -262,7 +274,8 @@ CHECKS["C14"] = {
     "budget": (150, 1800),
     "rule": "one run = 20-140 steps against a live gateway with a configured system (2-6 of zones 00-0B, DHW in 60 %): stateful frames "
             "generated by the engine in the shapes seen in the corpus (controller arrays and per-zone replies of 30C9/2309/000A, 2349, "
-            "12B0, 0004, 2E04, 1260, 10A0, 1F41; TRV/thermostat/relay/DHW-sensor 30C9, 2309, 3150, 12B0, 0008, 1260), every value unique, "
+            "12B0, 0004, 2E04, 1260, 10A0, 1F41, the system's 3150|FC; TRV/thermostat/relay/DHW-sensor 30C9, 2309, 3150, 12B0, 0008, 1260; an "
+            "OpenTherm bridge's RP|3220 for 8 data ids incl. readings of exactly zero), every value unique, "
             "each transmission delivered, lost or duplicated; interleaved noise (RQ and W echoes for the same contexts, a second "
             "controller's arrays for the same zone indexes, other devices); wall-clock steps of 5 s .. 2 days placed around the lifetimes; "
             "'thresholds' steps that deliver one fresh message of one of 29 kinds and evaluate Message._expired at ages 0, L/2, L-2ms, "
@@ -283,8 +296,12 @@ CHECKS["C20"] = {
             "RF hub; per transmitted frame and receiver: heard / lost / sent 2-3 times with 0-60 ms gaps (two copies may share a read) / "
             "delayed by 10 ms .. 7 s placed around the 0.8 s, 3 s, 5 s and 5.1 s waits; echo heard / lost / doubled; third-party offers, "
             "accepts and confirms (between other parties, or competing for this supplicant / respondent) at seeded instants; loop stalls, "
-            "timer ties; the supplicant starting 0 .. 5.2 s after (or before) the respondent, or one side alone. Then a second attempt "
-            "with the faults off. Oracle: every attempt ends (resp < 25 s, supp < 50 s) with a tuple or a binding-family error; with "
+            "timer ties; the supplicant starting 0 .. 5.2 s after (or before) the respondent, or one side alone; or the caller cancels an "
+            "attempt after 0.05-4.5 s and retries 0-2 s later while the peer turns up 0-4.6 s into the retry. Then a second attempt "
+            "with the faults off. Scenario scripted: see assumptions; there the gateway's own first 0-3 transmissions get no echo (it "
+            "re-transmits), the scripted device answers the n-th copy, and success is required exactly when every awaited frame arrived "
+            "inside the stated wait of its step (offer < 5 s after the call; confirm < 3 s after the accept was sent and < 5.1 s after "
+            "the offer; addendum < 3 s after the confirm; accept < 5 s after the offer was sent). Oracle: every attempt ends (resp < 25 s, supp < 50 s) with a tuple or a binding-family error; with "
             "nothing lost, delayed or contested both ends succeed with equal tuples whose packets were on the air; after each attempt "
             "neither device is binding, the loop's exception handler is empty, and the second attempt succeeds. distinct = distinct "
             "(flow, mode, outcome) traces; non-trivial = faults on",
